@@ -104,6 +104,9 @@ pub struct MclmcStats<P: HasDims, H: Storable<P>, A: Storable<P>, Pt: Storable<P
     /// full size. The `−energy_change` term corrects for integration error.
     /// See Robnik & Seljak (2023), arXiv:2212.08549.
     pub log_weight: f64,
+    /// Also reported (under the same name) by the adaptation statistics, which are
+    /// flattened into this struct below, so it is not emitted a second time here.
+    #[storable(ignore)]
     pub tuning: bool,
     #[storable(flatten)]
     pub hamiltonian: H,
